@@ -194,9 +194,12 @@ impl Module {
                     .entry("notify".into())
                     .or_insert_with(|| nested_env::EnvKey::List(im::vector![]));
 
-                match notify_list {
-                    nested_env::EnvKey::Single(_) => panic!("unexpected notify value"),
-                    nested_env::EnvKey::List(list) => list.push_back(dep.create_module_define()),
+                // a single value (e.g. exported by a module) becomes the first list element
+                if let nested_env::EnvKey::Single(single) = notify_list {
+                    *notify_list = nested_env::EnvKey::List(im::vector![single.clone()]);
+                }
+                if let nested_env::EnvKey::List(list) = notify_list {
+                    list.push_back(dep.create_module_define());
                 }
             }
 
